@@ -80,9 +80,13 @@ package config
 //@   ensures result#1 == nil ==> result != nil
 //@   callsite NewExecutionContext
 //@     requires #C09.context-dir-falls-back-to-the-start-directory arg1 == (def.Dir != "" ? def.Dir : cwd())
+// C20: a watcher is built from exactly what its definition says — events, include and exclude patterns
+// as written (an empty event list means "all five types": NewWatcher's default) — for the task it names
 //@ func buildWatcher
 //@   requires def != nil && cfg != nil
 //@   nomod
+//@   callsite NewWatcher
+//@     requires #C20.definition-handed-on-as-written arg0 == name && arg1 == def.Events && arg2 == def.Watch && arg3 == def.Exclude && arg4 == cfg.Tasks[def.Task]
 //@   ensures result#1 == nil ==> result != nil
 //@ func NewConfig
 //@   nomod
